@@ -511,5 +511,23 @@ def const_eval(e):
     return None
 
 
+def add_sym(ast):
+    """per-module declaration table (pure syntax): name -> width, signedness, kind, array bounds, initialiser"""
+    for m in ast['modules']:
+        sym = {}
+        for p in m['ports']:
+            kind = 'outreg' if (p['dir'] == 'output' and p['reg']) else p['dir']
+            sym[p['n']] = {'w': abs(p['h'] - p['l']) + 1, 's': p['signed'], 'kind': kind, 'lo': 0, 'len': 0, 'l': min(p['h'], p['l']), 'init': []}
+        for d in m['decls']:
+            prev = sym.get(d['n'])
+            ent = {'w': abs(d['h'] - d['l']) + 1, 's': d['signed'], 'kind': d['kind'], 'lo': d['arr'][0] if d['arr'] else 0,
+                   'len': (d['arr'][1] - d['arr'][0] + 1) if d['arr'] else 0, 'l': min(d['h'], d['l']), 'init': d['init']}
+            if prev is not None and prev['kind'] in ('output', 'outreg') and d['kind'] == 'reg':
+                ent['kind'] = 'outreg'
+            sym[d['n']] = ent
+        m['sym'] = sym
+    return ast
+
+
 def parse(text):
-    return Parser(text).parse()
+    return add_sym(Parser(text).parse())
